@@ -68,6 +68,18 @@ fn spec_authorises_v6(r: &RoaPayload, qb: u128, ql: u8) -> bool {
     spec_covers128(p.addr.to_bits(), p.addr_len, qb, ql) && ql <= eff
 }
 
+/// Bit-level "the CA holding exactly `held` holds the payload's prefix".
+pub(crate) fn spec_held_v4(held: Ipv4Prefix, p: &RoaPayload) -> bool {
+    let TypedPrefix::V4(pp) = p.prefix else { return false };
+    spec_covers32(held.addr.to_bits(), held.addr_len, pp.addr.to_bits(), pp.addr_len)
+}
+
+/// The documented validity of a maximum length.
+pub(crate) fn spec_len_valid(p: &RoaPayload) -> bool {
+    let (l, w) = match p.prefix { TypedPrefix::V4(x) => (x.addr_len, 32u8), TypedPrefix::V6(x) => (x.addr_len, 128u8) };
+    match p.max_length { None => true, Some(m) => l <= m && m <= w }
+}
+
 //------------ C16(a) / C17(c): client-controlled arithmetic ------------------
 
 /// For every v4 payload that `max_length_valid` accepts,
